@@ -20,20 +20,33 @@ Definition FixedPoint_intToFixedPoint (sw iw fw v : Z) : option Z :=
       if v >? maxv then None                                 (* 'Value greater than max value' *)
       else Some (Z.land (py_shl v fw) (py_shl 1 w - 1)).
 
-Definition FixedPoint_add (sw iw fw a b : Z) : option Z :=
-  match FixedPoint_intToFixedPoint sw iw fw 0 with
+(* the same constructor after the repair of finding #23 (fixes/C12-23.diff): maxv = (1 << iw) >> 1, defined for iw = 0.
+   Which of the two the implementation runs is read off by a probe (FixedPoint(1,0,1,0) raises or not). *)
+Definition FixedPoint_intToFixedPoint_r (sw iw fw v : Z) : option Z :=
+  if (v <? 0) && (sw =? 0) then None
+  else
+    let w := sw + iw + fw in
+    if iw <? 0 then None                                     (* 1 << iw: ValueError negative shift count *)
+    else
+      let maxv := py_shr (py_shl 1 iw) 1 in
+      if v >? maxv then None
+      else Some (Z.land (py_shl v fw) (py_shl 1 w - 1)).
+
+(* add / sub / mult build their result with FixedPoint(sw, iw, fw, 0): generic in the constructor *)
+Definition FixedPoint_add_gen (ctor : Z -> Z -> Z -> Z -> option Z) (sw iw fw a b : Z) : option Z :=
+  match ctor sw iw fw 0 with
   | None => None
   | Some _ => let w := sw + iw + fw in Some (Z.land (a + b) (py_shl 1 w - 1))
   end.
 
-Definition FixedPoint_sub (sw iw fw a b : Z) : option Z :=
-  match FixedPoint_intToFixedPoint sw iw fw 0 with
+Definition FixedPoint_sub_gen (ctor : Z -> Z -> Z -> Z -> option Z) (sw iw fw a b : Z) : option Z :=
+  match ctor sw iw fw 0 with
   | None => None
   | Some _ => let w := sw + iw + fw in Some (Z.land (a - b) (py_shl 1 w - 1))
   end.
 
-Definition FixedPoint_mult (sw iw fw a b : Z) : option Z :=
-  match FixedPoint_intToFixedPoint sw iw fw 0 with
+Definition FixedPoint_mult_gen (ctor : Z -> Z -> Z -> Z -> option Z) (sw iw fw a b : Z) : option Z :=
+  match ctor sw iw fw 0 with
   | None => None
   | Some _ =>
       let w := sw + iw + fw in
@@ -41,6 +54,13 @@ Definition FixedPoint_mult (sw iw fw a b : Z) : option Z :=
       let bv := signExtend b w (w * 2) in
       Some (Z.land (py_shr (av * bv) fw) (py_shl 1 w - 1))
   end.
+
+Definition FixedPoint_add := FixedPoint_add_gen FixedPoint_intToFixedPoint.
+Definition FixedPoint_sub := FixedPoint_sub_gen FixedPoint_intToFixedPoint.
+Definition FixedPoint_mult := FixedPoint_mult_gen FixedPoint_intToFixedPoint.
+Definition FixedPoint_add_r := FixedPoint_add_gen FixedPoint_intToFixedPoint_r.
+Definition FixedPoint_sub_r := FixedPoint_sub_gen FixedPoint_intToFixedPoint_r.
+Definition FixedPoint_mult_r := FixedPoint_mult_gen FixedPoint_intToFixedPoint_r.
 
 (* toFloatingPoint: the exact rational it denotes is num / 2^fw; returned as the signed numerator *)
 Definition FixedPoint_toFloat_num (sw iw fw v : Z) : Z :=
